@@ -303,7 +303,7 @@ def instances(tier):
 
 
 BOUNDS = {
-    'quick': 'maxvol: A = P L U with n x r in {3x2 (k<=2), 3x1 (k<=2), 4x2 (k=1)}, pivot permutations enumerated; '
+    'quick': 'maxvol: A = P L U with n x r in {3x2 (k<=2), 3x1 (k<=2), 4x2 (k=1)}, pivot permutations enumerated, two Fortran-ordered inputs; '
              'maxvol_rect: 3x1, 3x2, 4x2 with dr <= 2, k0 = 1; symbolic: every entry of L (|l|<=1), U (non-singular), e >= 1',
     'thorough': 'adds 3x2 k<=3, 4x2/4x3/5x2 with k=1 (inductive step: L arbitrary => arbitrary state after initialisation), '
                 'maxvol_rect up to 4x2 with dr<=2 and dr_max=None',
